@@ -21,7 +21,7 @@ import (
 
 func keystorePass(iters int) {
 	for it := 0; it < iters; it++ {
-		dir, err := os.MkdirTemp("/verif/.scratch", "ksrace-")
+		dir, err := os.MkdirTemp(scratchDir(), "ksrace-")
 		if err != nil {
 			panic(err)
 		}
@@ -86,9 +86,16 @@ func main() {
 	if len(os.Args) > 1 {
 		fmt.Sscan(os.Args[1], &iters)
 	}
-	_ = os.MkdirAll("/verif/.scratch", 0o755)
+	_ = os.MkdirAll(scratchDir(), 0o755)
 	keystorePass(iters)
 	statelessPass(iters)
 	checks.QueryHammer(iters / 10)
 	fmt.Println("ksrace: done")
+}
+
+func scratchDir() string {
+	if s := os.Getenv("VERIF_OUT"); s != "" {
+		return s + "/.scratch"
+	}
+	return "/verif/.scratch"
 }
